@@ -33,7 +33,7 @@ META = {
     'technique': 'Rocq/Coq proof over hand-written executable model + vm_compute correspondence + live differential oracle',
 }
 
-IMPORTS = ['Model.C14_Transport', 'Model.C14_Buffered', 'Model.C14_Defrag', 'Model.C14_Check', 'Model.C14_AsyncSM', 'Model.C14_ReadLoop']
+IMPORTS = ['Model.C14_Transport', 'Model.C14_Buffered', 'Model.C14_Defrag', 'Model.C14_Check', 'Model.C14_AsyncSM', 'Model.C14_ReadLoop', 'Model.C14_Fragment']
 WB_KEY = 'escape-EWOULDBLOCK'
 WB_WHAT = ('a would-block reported by the socket escapes the generator API as socket.error(EWOULDBLOCK) instead of a '
            '"yield 1" (before /repo 8168763: BufferedSocket.flush() -> socket.sendall while a buffered flight is flushed; '
@@ -191,6 +191,10 @@ def sys_key(s, diffs, outcome):
         return WB_KEY + ':' + s.get('api', 'gen')
     if diffs[0][0] == 'sendall-reached':
         return 'sync-flush-reached:' + s.get('api', 'gen')
+    if s.get('api') == 'fault':
+        return 'failure-path:%s:%s' % (s['fault']['role'], s['fault']['inject'])
+    if s.get('api') == 'recsize':
+        return 'sender-record-size:%s' % diffs[0][0]
     if diffs[0][0].startswith('call-'):
         return 'per-call-trace:%s' % s.get('api', 'gen')
     what = 'reframe-' + s['reframe'] if s.get('reframe') else s.get('api', 'gen')
@@ -253,13 +257,21 @@ def run(ctx):
     hists = S.call_histories(rr, 6 if quick else 120)
     ct_tasks = [(h, S.calltrace_schedules(rr, 2 if quick else 12), rr.getrandbits(32)) for h in hists]
     async_ct = pool.map_async(S.worker_calltrace, ct_tasks, chunksize=1)
+    # sender's record size sweep and failure paths
+    rs_cases = S.recsize_cases(quick, rr)
+    nrs = 16 if quick else 48
+    async_rs = pool.map_async(S.worker_recsize, [(rs_cases[i::nrs], rr.getrandbits(32)) for i in range(nrs) if rs_cases[i::nrs]], chunksize=1)
+    injects = ['alert', 'half-alert', 'nothing'] if quick else sorted(S.INJECT)
+    f_tasks = [(fl, role, injects, S.fault_schedules(quick), rr.getrandbits(32), 24)
+               for fl in S.fault_flavours(quick) for role in ('client', 'server')]
+    async_fault = pool.map_async(S.worker_fault, f_tasks, chunksize=1)
     # ---- blocking wrappers: table regenerated from the ast of /repo
     okw, msgw = units.generate('C14_Wrappers', vlib.COQ)
     ctx.log('wrapper table: %s' % msgw)
     if not okw:
         tie_broken = msgw
     # ---- proofs
-    res = vlib.proof_stage(ctx, 'Props/C14.v', model_targets=['Model/C14_Check.vo', 'Model/C14_AsyncSM.vo', 'Model/C14_ReadLoop.vo'])
+    res = vlib.proof_stage(ctx, 'Props/C14.v', model_targets=['Model/C14_Check.vo', 'Model/C14_AsyncSM.vo', 'Model/C14_ReadLoop.vo', 'Model/C14_Fragment.vo'])
     ctx.log('proof stage ok=%s failing=%s' % (res['ok'], res['failing']))
     ctx.cov['trusted_base'] = [
         'Coq 8.16.1 kernel + vm_compute (case evaluation)',
@@ -354,6 +366,34 @@ def run(ctx):
                           'AsyncStateMachine driving a %s operation that yields %r: %s' % (kind, ys, bad),
                           {'kind': 'asm-select', 'op': kind, 'yields': ys, 'value': value,
                            'how': 'harness/c14_util.impl_asm_select(op, yields, value)'})
+    # the sender's fragmentation for every record size (divisors of the message length included)
+    frag_lits = []
+    n_frag_bad = 0
+    for _ in range(n_def * 2):
+        k, ctype, data = U.gen_fragment_case(rng)
+        try:
+            recs = U.impl_fragment(k, ctype, data)
+            bad = None
+            if b''.join(recs) != data:
+                bad = 'record payloads do not concatenate to the message'
+            elif any(len(x) > k for x in recs):
+                bad = 'a record exceeds the record size'
+            elif data and any(len(x) == 0 for x in recs):
+                bad = 'zero-length record for a non-empty message (%d records for %d bytes)' % (len(recs), len(data))
+            elif not data and recs != [b'']:
+                bad = 'empty message gives %r' % (recs,)
+        except Exception as e:  # noqa
+            recs, bad = [], 'raised %s: %s' % (type(e).__name__, e)
+        frag_lits.append('(%s, %s, %s)' % (vlib.zlit(k), vlib.blit(data), vlib.listlit(recs, vlib.blit)))
+        ctx.count('unit-fragment', 1, [(ctype, min(k, 70), len(data) % k == 0 if k else None, min(len(data), 70))])
+        if bad:
+            found = True
+            n_frag_bad += 1
+            if n_frag_bad <= 3:
+                ctx.violation('unit-fragment:%s' % ('multiple' if data and len(data) % k == 0 else 'other'),
+                              '_sendMsg with recordSize=%d, content type %d, %d-byte message: %s' % (k, ctype, len(data), bad),
+                              {'kind': 'fragment', 'k': k, 'ctype': ctype, 'data': data.hex(),
+                               'how': 'harness/c14_util.impl_fragment(k, ctype, data)'})
     asm_lits = []
     for _ in range(n_def):
         case = U.gen_asm_case(rng)
@@ -369,7 +409,8 @@ def run(ctx):
                   ('C14b', 'BufCase', ['chk_buf'], buf_lits, 'buffered'),
                   ('C14d', 'DefragCase', ['chk_defrag'], def_lits, 'defrag'),
                   ('C14f', 'FeedCase', ['chk_feed'], feed_lits, 'feed'),
-                  ('C14a', 'AsmCase', ['chk_asm'], asm_lits, 'asyncstatemachine')]
+                  ('C14a', 'AsmCase', ['chk_asm'], asm_lits, 'asyncstatemachine'),
+                  ('C14g', 'FragCase', ['chk_fragment'], frag_lits, 'fragment')]
         for tag, ty, fns, lits, nm in groups:
             shard = max(10, (len(lits) + 5) // 6) if quick else 150
             bads, errs = vlib.coq_bad_indices(tag, IMPORTS, ty, fns, lits, shard=shard)
@@ -386,6 +427,8 @@ def run(ctx):
     # ---- system level results
     ct_res = async_ct.get(timeout=6000)
     sys_res = async_sys.get(timeout=6000) + async_reply.get(timeout=6000) + ct_res
+    for chunk in async_rs.get(timeout=6000) + async_fault.get(timeout=6000):
+        sys_res += chunk
     # the per-call traces against the model of the read loop (message sequence only)
     if res['model_ok']:
         ct_lits, ct_names = [], []
@@ -432,7 +475,9 @@ def run(ctx):
                 if key.startswith('sync-flush-reached'):
                     what = 'socket.sendall (BufferedSocket.flush(), blocking-socket API) was reached from the generator API; ' + what
                 ctx.violation(key, what,
-                              {'kind': 'sys-reply' if r.get('reply') else ('sys-calls' if r.get('calltrace') else 'sys'),
+                              {'kind': 'sys-reply' if r.get('reply') else ('sys-calls' if r.get('calltrace') else
+                                                                           ('sys-fault' if r.get('fault') else ('sys-recsize' if r.get('recsize') else 'sys'))),
+                               'recsize': r.get('recsize'),
                                'reply': r.get('reply'), 'history': r.get('calltrace'),
                                'scenario': r['name'], 'sched': s, 'seed_task': r.get('seed'),
                                'diffs': repr(diffs)[:4000],
@@ -525,10 +570,34 @@ def replay(ctx, path):
                 print('seed', seed, 'schedule', S.sched_class(s), 'differences:', diffs[:3] if diffs else 'none')
                 bad |= bool(diffs)
         return 1 if bad else 0
+    if kind == 'fragment':
+        recs = U.impl_fragment(r['k'], r['ctype'], bytes.fromhex(r['data']))
+        print('recordSize', r['k'], 'message of', len(r['data']) // 2, 'bytes -> record payload lengths', [len(x) for x in recs])
+        return 1 if (r['data'] and any(len(x) == 0 for x in recs)) or b''.join(recs).hex() != r['data'] else 0
     if kind == 'asm-select':
         bad = U.impl_asm_select(r['op'], r['yields'], r['value'])
         print('AsyncStateMachine select loop:', bad or 'runs the generator to completion')
         return 1 if bad else 0
+    if kind == 'sys-recsize':
+        import c14_sys as S
+        c = r['recsize']
+        c['ver'] = tuple(c['ver'])
+        w = S.worker_recsize(([c], r['seed_task']))[0]
+        d = w.get('results', [(None, w.get('error'))])[0][1]
+        print('record-size case', c, 'differences from the default record size:', d or 'none')
+        return 1 if d else 0
+    if kind == 'sys-fault':
+        import c14_sys as S
+        f = r['sched']['fault']
+        fl = f['flavour']
+        fl['ver'] = tuple(fl['ver'])
+        sch = {k: v for k, v in r['sched'].items() if k != 'fault'}
+        base = S.run_fault(fl, f['role'], f['index'], f['inject'], None, r['seed_task'])
+        o = S.run_fault(fl, f['role'], f['index'], f['inject'], sch, r['seed_task'])
+        print('send %d of the %s fails, peer left %r' % (f['index'], f['role'], f['inject']))
+        print('   delivered at once :', base)
+        print('   under schedule %s:' % sch, o)
+        return 0 if base == o else 1
     if kind == 'sys-calls':
         import c14_sys as S
         h = r['history']
